@@ -1,5 +1,6 @@
 #!/bin/bash
 # usage: mk.sh [targets...]  -- regenerate _CoqProject/Makefile if the file set changed, then make
-cd /verif && python3 -c "
+W="$(cd "$(dirname "$0")/.." && pwd)"
+cd "$W" && python3 -c "
 import sys; sys.path.insert(0,'checker'); import common; common.ensure_makefile()"
-cd /verif/coq && make -j16 "$@" 2>&1 | grep -v '^COQDEP\|^CLEAN' | tail -${MKTAIL:-15}
+cd "$W/coq" && timeout ${MKTIMEOUT:-3000} make -j${MKJOBS:-8} "$@" 2>&1 | grep -v '^COQDEP\|^CLEAN' | tail -${MKTAIL:-15}
